@@ -142,7 +142,16 @@ def work(args):
             desc, files, feats = sized_case(*SIZED[index % len(SIZED)]), {}, []
             suitcases.LAST_CHILDREN[:] = []
         else:
-            desc, files, feats = suitcases.make_case(seed, index, ambiguous=(kind == "ambiguous"), depth=(1 if kind == "signed" else 2))
+            if kind == "signed" and index % 10 < 5:
+                # the plainest envelope there is (SHA-256, one component, one command), signed with each algorithm in turn
+                desc, files, feats = {"SUIT_Envelope_Tagged": {
+                    "suit-authentication-wrapper": {"SuitDigest": {"suit-digest-algorithm-id": "cose-alg-sha-256"}},
+                    "suit-manifest": {"suit-manifest-version": 1, "suit-manifest-sequence-number": index % 1000,
+                                      "suit-common": {"suit-components": [["M", 2, index % 7]]},
+                                      "suit-validate": [{"suit-condition-image-match": []}]}}}, {}, []
+                suitcases.LAST_CHILDREN[:] = []
+            else:
+                desc, files, feats = suitcases.make_case(seed, index, ambiguous=(kind == "ambiguous"), depth=(1 if kind == "signed" else 2))
     except suitcases.ChildFailed:
         return None
     desc = suitcases.perturb_text(desc, random.Random(f"{seed}:{index}:text"))
@@ -162,14 +171,13 @@ def work(args):
             return None
         b = bytes.fromhex(c0["ok"])
         with tempfile.TemporaryDirectory(prefix="verif_c03s_") as sd:
-            for _ in range(rs.choice([1, 1, 2, 3])):
-                alg = rs.choice(["eddsa", "es-256"])
-                r, _recs = signing.run_sign("single-level", b, sd, key_name="key_" + signing.MATCHING_KEY[alg], alg=alg, action="append" if False else "error",
-                                            key_id=rs.choice([0, 7, 23, 24, 255, 256, 300, 65535, 65536, 0x40022100, 0x7FFFFFE0, 0xFFFFFFFF]))
-                if "ok" not in r:
-                    break
-                b = r["ok"]
-                break
+            # every signature algorithm of the sign command (their COSE identifiers span the one-, two- and five-byte negative integers)
+            alg = signing.ALGS[index % len(signing.ALGS)]
+            r, _recs = signing.run_sign("single-level", b, sd, key_name="key_" + signing.MATCHING_KEY[alg], alg=alg, action="error",
+                                        key_id=rs.choice([0, 7, 23, 24, 255, 256, 300, 65535, 65536, 0x40022100, 0x7FFFFFE0, 0xFFFFFFFF]))
+            if "ok" not in r:
+                return {"skip": "sign:" + r["err"]}
+            b = r["ok"]
     amb = ambiguous_positions(desc) + [p for ch in suitcases.LAST_CHILDREN for p in ambiguous_positions(ch)]
     res = {"amb": len(amb) > 0, "kind": kind, "hash": hashlib.sha1(b).hexdigest(), "problems": [], "mismatch": None, "len": len(b)}
     # parse: implementation vs model
